@@ -889,6 +889,80 @@ def flag_truth_rule(chk, repo, clause, funcs, flag):
            else f'{n} test(s) of `{flag}`', '')
 
 
+def flag_identity_rule(chk, repo, clause, mods):
+    """Options whose default is True / False are switches: every truthy value selects the branch (np.True_ is what a numpy
+    comparison hands over, 1 what older callers pass).  `flag is True`, `flag is not False` ... send those the other way."""
+    bad, n = [], 0
+    for f in repo.all_functions():
+        if f.module.name not in mods:
+            continue
+        a = f.node.args
+        pos = a.posonlyargs + a.args
+        flags = {x.arg for x, d in zip(pos[len(pos) - len(a.defaults):], a.defaults)
+                 if isinstance(d, ast.Constant) and isinstance(d.value, bool)}
+        flags |= {x.arg for x, d in zip(a.kwonlyargs, a.kw_defaults) if isinstance(d, ast.Constant) and isinstance(d.value, bool)}
+        if not flags:
+            continue
+        rebound = {t.id for node in ast.walk(f.node) if isinstance(node, (ast.Assign, ast.AugAssign, ast.AnnAssign))
+                   for t in ast.walk(node.targets[0] if isinstance(node, ast.Assign) else node.target)
+                   if isinstance(t, ast.Name) and isinstance(t.ctx, ast.Store)}
+        for node in ast.walk(f.node):
+            if isinstance(node, ast.Compare) and len(node.ops) == 1:
+                l, r = node.left, node.comparators[0]
+                for x, y in ((l, r), (r, l)):
+                    if isinstance(x, ast.Name) and x.id in flags - rebound and isinstance(y, ast.Constant) and isinstance(y.value, bool):
+                        n += 1
+                        if isinstance(node.ops[0], (ast.Is, ast.IsNot)):
+                            bad.append(f'{f.key}: `{f.module.segment(node)}` at {f.loc(node)}')
+            elif isinstance(node, ast.Name) and node.id in flags and isinstance(node.ctx, ast.Load):
+                n += 1
+    chk.ob(clause, 'T-truth', 'lentil.' + '/'.join(mods), 'switches (options defaulting to True / False) are tested for their truth value, never '
+           'for identity with True / False', (not bad) if (n or bad) else None,
+           ('; '.join(bad[:2]) + ': a true value that is not the object True (np.True_, 1) takes the other branch') if bad
+           else f'{n} use(s) of switches', '')
+
+
+def array_truth_rule(chk, repo, clause, mods):
+    """A parameter documented as array_like is never tested by its truth: `x if x else default`, `if not x`, `x or default`
+    raise for an array of more than one element, and take the default for a legitimate 0 / [0, 0] / empty value.  (`is
+    None` is the test for "not given".)"""
+    from ..effects import doc_param_kinds
+    bad, n = [], 0
+
+    def truth_names(t):
+        if isinstance(t, ast.Name):
+            return [t]
+        if isinstance(t, ast.UnaryOp) and isinstance(t.op, ast.Not):
+            return truth_names(t.operand)
+        if isinstance(t, ast.BoolOp):
+            return [x for v in t.values for x in truth_names(v)]
+        return []
+    for f in repo.all_functions():
+        if f.module.name not in mods:
+            continue
+        kinds = doc_param_kinds(f)
+        arr = {p_ for p_ in f.param_names() if kinds.get(p_) == 'array'}
+        if not arr:
+            continue
+        n += len(arr)
+        rebound = {t.id for node in ast.walk(f.node) if isinstance(node, (ast.Assign, ast.AugAssign, ast.AnnAssign))
+                   for t in ast.walk(node.targets[0] if isinstance(node, ast.Assign) else node.target)
+                   if isinstance(t, ast.Name) and isinstance(t.ctx, ast.Store)}
+        for node in ast.walk(f.node):
+            tests = []
+            if isinstance(node, (ast.If, ast.IfExp, ast.While)):
+                tests = truth_names(node.test)
+            elif isinstance(node, ast.BoolOp):
+                tests = [x for v in node.values[:-1] for x in truth_names(v)]
+            for t in tests:
+                if t.id in arr - rebound:
+                    bad.append(f'{f.key}: `{t.id}` is tested by its truth value at {f.loc(node)}')
+    chk.ob(clause, 'T-truth', 'lentil.' + '/'.join(mods), 'array_like parameters are never tested by their truth value',
+           (not bad) if n else None,
+           ('; '.join(sorted(set(bad))[:2]) + ': an array of two or more elements raises, and zero / [0, 0] counts as "not given"') if bad
+           else f'{n} array_like parameter(s)', '')
+
+
 def _literal(src):
     try:
         return ('lit', ast.literal_eval(src))
@@ -1003,6 +1077,8 @@ def public_signature_rule(chk, repo, pid, mods):
             if d is None and nm not in [x for x, _ in old_pos]:
                 bad.append(f'{key}: new parameter `{nm}` has no default')
     crossed_arguments_rule(chk, repo, clause, mods)
+    flag_identity_rule(chk, repo, clause, mods)
+    array_truth_rule(chk, repo, clause, mods)
     chk.ob(clause, 'B-signature', 'lentil.' + '/'.join(mods), 'pinned public calling conventions', (not bad) if n else None,
            '; '.join(bad[:3]) + (': calls written against the documented convention bind other parameters / get other values'
                                  if bad else f'{n} public function(s) keep their calling convention'), '')
